@@ -140,6 +140,12 @@ fn case_strategy() -> impl Strategy<Value = Case> {
             let mut seen = BTreeSet::new();
             let mut names: Vec<String> = names.into_iter().filter(|n| seen.insert(n.clone())).collect();
             names.retain(|n| n != "org.varlink.service" && !svc::REGISTERED.contains(&n.as_str()));
+            // sometimes two implementations report the same name (the later registration wins
+            // or not - the statement only says the name is listed once and reaches one of them)
+            if mmode % 7 == 3 && !names.is_empty() && names.len() < 6 {
+                let d = names[pick.index(names.len())].clone();
+                names.push(d);
+            }
             let mut pool: Vec<String> = names.clone();
             if with_generated {
                 pool.extend(svc::REGISTERED.iter().map(|s| s.to_string()));
@@ -187,7 +193,7 @@ fn case_strategy() -> impl Strategy<Value = Case> {
                 }
                 p => p,
             };
-            let ndesc = names.len();
+            let ndesc = names.len().min(6);
             Case { names, with_generated, info, descs: descs.into_iter().take(ndesc).collect(), method, params, flags }
         })
 }
@@ -254,7 +260,11 @@ pub fn run_case(c: &Case) -> Result<(), Fail> {
     let more = c.flags[0] == 1;
     let closed = run.err.is_some();
 
-    let registered: Vec<&str> = c.names.iter().map(|s| s.as_str()).collect();
+    let mut registered: Vec<&str> = c.names.iter().map(|s| s.as_str()).collect();
+    {
+        let mut seen = BTreeSet::new();
+        registered.retain(|n| seen.insert(*n));
+    }
     let generated: Vec<&str> = if c.with_generated { svc::REGISTERED.to_vec() } else { vec![] };
 
     // --- who may have seen the call
@@ -356,7 +366,18 @@ pub fn run_case(c: &Case) -> Result<(), Fail> {
                     } else {
                         let want_name = p["interface"].as_str().unwrap();
                         let r = one_final("desc")?;
-                        let idx = registered.iter().position(|n| *n == want_name);
+                        let idxs: Vec<usize> = c.names.iter().enumerate().filter(|(_, n)| n.as_str() == want_name).map(|(i, _)| i).collect();
+                        if idxs.len() > 1 {
+                            // duplicate registration: the description of either implementation
+                            let ok = idxs.iter().any(|i| {
+                                fin_matches(&Fin::Ok(json!({"description": format!("interface {}\n# {}\nmethod Foo() -> ()\n", want_name, c.descs.get(*i).cloned().unwrap_or_default())})), r)
+                            });
+                            if !ok {
+                                return Err(Fail::new("route/desc-wrong", format!("GetInterfaceDescription({}) answered {} which is the text of none of the implementations registered under that name", want_name, r)));
+                            }
+                            return Ok(());
+                        }
+                        let idx = idxs.first().cloned();
                         let want = if let Some(i) = idx {
                             Fin::Ok(json!({"description": format!("interface {}\n# {}\nmethod Foo() -> ()\n", want_name, c.descs.get(i).cloned().unwrap_or_default())}))
                         } else if want_name == "org.varlink.service" {
